@@ -291,12 +291,26 @@ func (c *Ctx) RulerFastPath(prop string) {
 				}
 				if root == ssa.Value(dataMk) {
 					// value: type assertion of rulesData[i].Data
-					ok := false
-					if ex, isEx := st.Val.(*ssa.Extract); isEx {
-						if ta, isTA := ex.Tuple.(*ssa.TypeAssert); isTA {
-							if _, fld, base := an.FieldOf(ta.X); fld == "Data" {
-								if rr, idx, ok2 := elemLoad(base); ok2 && rr == ssa.Value(dataP) && idx == l.Idx {
-									ok = true
+					isEntryData := func(v ssa.Value, sub Subst) bool {
+						if ex, isEx := v.(*ssa.Extract); isEx {
+							if ta, isTA := ex.Tuple.(*ssa.TypeAssert); isTA {
+								if _, fld, base := an.FieldOf(sub.Res(ta.X)); fld == "Data" {
+									if rr, idx, ok2 := elemLoad(sub.Res(base)); ok2 && rr == ssa.Value(dataP) && idx == l.Idx {
+										return true
+									}
+								}
+							}
+						}
+						return false
+					}
+					ok := isEntryData(st.Val, nil)
+					if !ok {
+						// a per-entry helper that is given rulesData[i] and hands back its asserted Data
+						if rvs, isH := HelperResults(st.Val); isH && len(rvs) > 0 {
+							ok = true
+							for _, rv := range rvs {
+								if !isEntryData(rv.Val, rv.Sub) {
+									ok = false
 								}
 							}
 						}
